@@ -132,7 +132,7 @@ Definition wit_chB := [mkchild 21 true 0 [6]; mkchild 22 false 6 []].
 Definition wit_kA := mkcall 0 3 1 [LResolved 3 true] [LFactory 4] wit_chA.
 Definition wit_kB := mkcall 0 3 2 [LResolved 3 true] [LFactory 4] wit_chB.
 (* A runs up to (not including) body.children = self.nodes; B runs completely; A finishes *)
-Definition wit_sched : list nat := repeat 0%nat 13 ++ repeat 1%nat 40 ++ repeat 0%nat 40.
+Definition wit_sched : list nat := repeat 0%nat 12 ++ repeat 1%nat 40 ++ repeat 0%nat 40.
 
 Lemma multiref_shared_refuted_l :
   exists kA kB sched stA rq f m,
@@ -143,8 +143,9 @@ Lemma multiref_shared_refuted_l :
     /\ cnext default_mv stA = ADone (VResult rq (own_roots (c_children kB)) f m)
     /\ own_roots (c_children kB) <> own_roots (c_children kA).
 Proof.
-  exists wit_kA, wit_kB, wit_sched.
-  eexists. eexists. eexists. eexists.
-  repeat split; try (vm_compute; reflexivity).
+  exists wit_kA, wit_kB, wit_sched,
+         (mkst [] 0 1 1007 [21] [(5, 12)] [8; 5]), 1007, [(5, 12)], [8; 5].
+  split; [reflexivity|]. split; [reflexivity|]. split; [reflexivity|]. split; [reflexivity|].
+  split; [vm_compute; reflexivity|]. split; [vm_compute; reflexivity|].
   vm_compute. discriminate.
 Qed.
